@@ -8,6 +8,7 @@ T  ``t = E`` immediately followed by ``if t:`` / ``return t`` where ``t`` is a p
    the function  ->  ``if E:`` / ``return E``
 N  ``if not c: B else: A`` (A not an elif chain)  ->  ``if c: A else: B``
 A  ``if a: if b: X`` (neither has an else, the inner if is the only statement)  ->  ``if a and b: X``
+W  ``if (t := E) <rest of test>:`` with the walrus as the first operand evaluated  ->  ``t = E`` followed by ``if t <rest>:``
 M  ``match s: case V: A; case V1 | V2: B; case _: C`` with value / singleton / or / wildcard patterns only (no captures,
    optional guards) and a side-effect free subject (name or attribute chain)  ->  ``if s == V: A elif s in (V1, V2): B else: C``
 
@@ -144,9 +145,51 @@ class _Match(ast.NodeTransformer):
         return chain if chain else ast.copy_location(ast.Pass(), node)
 
 
+class _Walrus(ast.NodeTransformer):
+    """hoist a walrus that is the first thing an ``if`` test evaluates"""
+
+    def _block(self, stmts):
+        out = []
+        for st in stmts:
+            if isinstance(st, ast.If):
+                first, holder = st.test, None
+                while True:
+                    if isinstance(first, ast.BoolOp):
+                        holder, first = first, first.values[0]
+                    elif isinstance(first, ast.Compare):
+                        holder, first = first, first.left
+                    elif isinstance(first, ast.UnaryOp):
+                        holder, first = first, first.operand
+                    else:
+                        break
+                if isinstance(first, ast.NamedExpr) and isinstance(first.target, ast.Name):
+                    out.append(ast.copy_location(ast.Assign(targets=[ast.Name(id=first.target.id, ctx=ast.Store())], value=first.value,
+                                                            lineno=st.lineno), st))
+                    repl = ast.copy_location(ast.Name(id=first.target.id, ctx=ast.Load()), first)
+                    if holder is None:
+                        st.test = repl
+                    elif isinstance(holder, ast.BoolOp):
+                        holder.values[0] = repl
+                    elif isinstance(holder, ast.Compare):
+                        holder.left = repl
+                    else:
+                        holder.operand = repl
+            out.append(st)
+        return out
+
+    def generic_visit(self, node):
+        super().generic_visit(node)
+        for field in ('body', 'orelse', 'finalbody'):
+            v = getattr(node, field, None)
+            if isinstance(v, list) and v and isinstance(v[0], ast.stmt):
+                setattr(node, field, self._block(v))
+        return node
+
+
 def prenormalize(tree):
     if hasattr(ast, 'Match'):
         _Match().visit(tree)
+    _Walrus().visit(tree)
     for fn in [n for n in ast.walk(tree) if isinstance(n, (ast.FunctionDef, ast.AsyncFunctionDef))]:
         loads, stores = _name_counts(fn)
         b = _Blocks(loads, stores)
